@@ -44,7 +44,9 @@ const (
 	keyRaceFinish = "sse:keepalive-uses-responsewriter-after-handler-returned"
 	keyCrash      = "sse:server-crash-keepalive-write-after-handler-returned"
 	keyStuck      = "sse:keepalive-goroutine-parked-on-mutex-forever"
-	maxDiagnosed  = 6
+	// round 4: payloads produced after a server-side cancellation of the request context / `complete` not delivered
+	keyDropAfterCancel = "sse:payloads-or-complete-dropped-after-server-side-cancel"
+	maxDiagnosed       = 6
 )
 
 var (
@@ -142,7 +144,7 @@ func main() {
 	if doHist {
 		go func() {
 			defer close(histDone)
-			plain := buildPlainServer()
+			plain := plainServer()
 			var hr, hp []*history
 			if replay {
 				hr, hp = replayHistories(rHist, "r", 8), replayHistories(rHist, "p", 8)
@@ -176,9 +178,38 @@ func main() {
 			others = append(others, s)
 		}
 	}
+	// (D) server-side cancellation: the same scenarios once more on a PLAIN build confined to one processor
+	// (the race-enabled children of the pools serve the originals)
+	var dlPlain []*Scenario
+	var dlKid *child
+	dlDone := make(chan struct{})
+	go func() {
+		defer close(dlDone)
+		for _, s := range scs {
+			if s.CancelMode != "" && !replay {
+				cp := *s
+				cp.ID, cp.Server = s.ID+"p", "plain-1p"
+				dlPlain = append(dlPlain, &cp)
+			}
+		}
+		if len(dlPlain) == 0 {
+			return
+		}
+		dlKid = newChild("deadline-plain1p", plainServer())
+		dlKid.env = []string{"GOMAXPROCS=1"}
+		for _, s := range dlPlain {
+			dlKid.run(s)
+		}
+		dlKid.stop()
+	}()
 	pool("ka", 2, withKA)
 	pool("st", 2, others)
 	wg.Wait()
+	<-dlDone
+	if dlKid != nil {
+		kids = append(kids, dlKid)
+	}
+	scs = append(scs, dlPlain...)
 	// the one-processor gate scenarios run alone: their point is who gets the processor when
 	if len(oneP) > 0 {
 		pool("p1", 1, oneP, "GOMAXPROCS=1")
@@ -224,11 +255,13 @@ func main() {
 	c.Set("rule", "exhaustive TLC check of Stream.tla (payload counts x position of a payload that cannot be serialized x interleavings of source, writer, keep-alive ticks, flush ticks, finishRequest, client disconnect; histories of two requests on one handler); "+
 		"conformance: one case = one real streamed response (transport, keep-alive/flush interval on a seeded geometric sweep 1us..10ms, payload count 0..4, payload sizes 8B..70KB, seeded production delays, optional client cut after k bytes); "+
 		"phase H: one case = one request of a history served by one server process (first request: payload k of n cannot be serialized, k = every position, Data not JSON / extension not marshallable, SSE with and without keep-alive and multipart; then ordinary requests of both transports), on a race-enabled server and on a plain one confined to one processor; "+
+		"server-side cancellation: one case = one SSE (keep-alive 2us..50ms and off) or multipart stream whose request context a middleware around handler.Server cancels (context.WithCancel / WithTimeout) inside the source's call k+1, k = every point of the payload sequence, client reading to EOF, the remaining payloads produced afterwards, on a race-enabled server and on a plain one confined to one processor; "+
 		"phase G: one case = one @defer query served by generated code (2 generator layouts) over the real multipart/mixed or SSE transport, deferred groups gated into one flush interval or one interval each, payload lengths equal/shrinking/growing/beyond 64 bytes; "+
 		"a class = (scenario class, transport, payload count, interval decade, cut or not, failing position, position in history, token shape: pings seen / batch sizes)")
 	c.Assume("the Go race detector reports an unsynchronised access pair when both accesses execute in the observed run (no false positives)")
 	c.Assume("net/http writes the bytes handed to ResponseWriter.Write in call order for a single writer; chunk boundaries are not part of the property")
 	c.Assume("sweeps, gate replays and histories: payload JSON comes from a hand-written ExecutableSchema; phase G: from the code the tree's generator produces for harness/probes/exec (two layouts), resolvers plan-driven (harness/ur)")
+	c.Assume("server-side cancellation: the point of the cancellation is the source call in which the operation first finds its context done (logged by the server child); a deadline that fired earlier than that call is modelled as firing there")
 	c.Assume("a request whose payload cannot be serialized is served as the code serves it today (no `complete` / no closing boundary, a bare error object): Stream.tla models it (MEncodeFail, FlushOutFail, MBlob) instead of judging it")
 	c.Finish()
 }
@@ -261,7 +294,7 @@ func modelChecks(c *vlib.Check, thorough bool) cexSet {
 		var zero []string
 		for _, a := range []string{"MWriteBegin", "MWriteEnd", "MFlushBegin", "MFlushEnd", "MStartKA", "MRecv", "MRecvNil", "MReset", "MClose", "Tick",
 			"MEncodeFail", "MPanicClose", "MPFlushBegin", "MPFlushEnd", "MBlobBegin", "MBlobEnd",
-			"KPingBegin", "KPingEnd", "KFlushBegin", "KFlushEnd", "KStop", "ServerCancel", "FinBegin", "FinEnd", "Disconnect",
+			"KPingBegin", "KPingEnd", "KFlushBegin", "KFlushEnd", "KStop", "ServerCancel", "FinBegin", "FinEnd", "Disconnect", "Deadline",
 			"MMRecvAdd", "MMRecvNil", "MMDoneSig", "MMDoneFlush", "MMTick", "MMFlushTick", "MMTickerStop"} {
 			if res.ActionCount[a] == 0 {
 				zero = append(zero, a)
@@ -347,6 +380,18 @@ func modelChecks(c *vlib.Check, thorough bool) cexSet {
 		edit: func(cfg string) string {
 			cfg = strings.Replace(cfg, "\n  SharedBuf = FALSE", "\n  SharedBuf = TRUE", 1)
 			return reInv.ReplaceAllString(cfg, "INVARIANT NoGarbage")
+		}})
+	// SERVER-SIDE cancellation (round 4): the deviating design in which keepAlive's ctx.Done branch marks the
+	// connection closed must lose payloads / `complete` (SseComplete refuted) and nothing else; without
+	// keep-alive pings the goroutine does not exist and the switch changes nothing
+	kaRest := "INVARIANTS TypeOK NoRace NoUseAfterFinish NoSplice PreFirst InOrder CompleteLast PingsOnlyIfConfigured NoGarbage"
+	jobs = append(jobs, job{name: "mc-kaclose-SseComplete", cfg: "MC_Stream_kaclose.cfg", mustFail: "SseComplete", cexKey: "SseComplete(keepAlive closes the connection on ctx.Done, server-side cancellation)",
+		what: "the design in which keepAlive closes the connection on ctx.Done (KACloseOnDone = TRUE)"})
+	jobs = append(jobs, job{name: "mc-kaclose-rest", cfg: "MC_Stream_kaclose.cfg", what: "the KACloseOnDone design, everything but SseComplete",
+		edit: func(cfg string) string { return strings.Replace(cfg, "INVARIANT SseComplete", kaRest, 1) }})
+	jobs = append(jobs, job{name: "mc-kaclose-noka", cfg: "MC_Stream_kaclose.cfg", what: "the KACloseOnDone design without keep-alive pings (no keepAlive goroutine)",
+		edit: func(cfg string) string {
+			return strings.Replace(strings.Replace(cfg, "\n  KASet = {TRUE}", "\n  KASet = {FALSE}", 1), "INVARIANT SseComplete", kaRest+" SseComplete", 1)
 		}})
 	sem := make(chan struct{}, 4)
 	var jw sync.WaitGroup
@@ -459,6 +504,33 @@ func selfTest(st *tlcStats) {
 		fl(mk("mm", 2, false, "clean", 3, bnd, hdr, ini("t"), bnd, hdr, blob), 2, 1),
 		fl(mk("mm", 2, false, "clean", 3, bnd, hdr, ini("t"), bnd, blob), 2, 1), // the source was asked for a payload after the one that cannot be encoded
 	)
+	// server-side cancellation of the request context (Deadline line; CancelSeen = payloads produced before it)
+	dl := func(s *Scenario, at int) *Scenario {
+		s.CancelMode, s.CancelAt, s.CancelSeen = "cancel", at, at
+		return s
+	}
+	good = append(good,
+		dl(mk("sse", 2, true, "clean", 2, pre, nx(1), ping, nx(2), cpl), 1),                                          // payload 2 produced after the cancellation: delivered, then complete
+		dl(mk("sse", 2, true, "clean", 2, pre, ping, nx(1), nx(2), cpl), 0),                                          // cancelled before the first payload
+		dl(mk("sse", 2, false, "clean", 2, pre, nx(1), nx(2), cpl), 2),                                               // after the last one: complete still follows
+		dl(mk("sse", 2, true, "clean", 1, pre, nx(1), cpl), 1),                                                       // the source itself ended on the cancelled context: complete
+		dl(mk("mm", 2, false, "clean", 3, bnd, hdr, ini("t"), bnd, hdr, inc("f", 1, 2), cls), 1),                     // multipart: batch produced after it
+		dl(mk("mm", 2, false, "clean", 3, bnd, hdr, ini("t"), bnd, hdr, inc("t", 1), bnd, hdr, inc("f", 2), cls), 3), // after the last payload
+		dl(mk("mm", 1, false, "clean", 2, bnd, hdr, ini("t"), bnd, hdr, inc("f", 1), cls), 0),
+	)
+	kaLost := dl(mk("sse", 2, true, "clean", 2, pre, nx(1)), 1) // what the KACloseOnDone design puts on the wire
+	bad = append(bad,
+		kaLost, // payload 2 and complete lost after the cancellation
+		dl(mk("sse", 2, true, "clean", 2, pre, nx(1), nx(2)), 1),  // complete lost
+		dl(mk("sse", 2, true, "clean", 2, pre, nx(1), cpl), 1),    // payload 2 (produced) lost
+		dl(mk("sse", 2, false, "clean", 2, pre, nx(1), nx(2)), 2), // cancelled after the last payload: no complete
+		dl(mk("sse", 2, true, "clean", 2, pre, nx(1), nx(2), cpl), 2).also(func(s *Scenario) { s.CancelSeen = 1; s.Toks = []Tok{pre, nx(2), nx(1), cpl} }), // order
+		dl(mk("mm", 2, false, "clean", 3, bnd, hdr, ini("t"), bnd), 1),                                                                                     // multipart: what was produced after it is missing
+		mk("sse", 2, true, "clean", 1, pre, nx(1), cpl),                                                                                                    // an early end WITHOUT a logged cancellation
+	)
+	if a := acceptedX([]*Scenario{kaLost, good[0]}, true, true, true, "selftest-kaclose", st, kaCloseOnDone); !a[kaLost] {
+		vlib.Infra("StreamTrace self-test (KACloseOnDone): the stream that loses what follows a server-side cancellation is not a behaviour of the deviating design")
+	}
 	// the deviating design SharedBuf must explain exactly the garbled event of a request that FOLLOWS a failed one
 	hA := fl(mk("sse", 3, false, "clean", 1, pre, blob), 1, 1)
 	hB := fl(mk("sse", 2, false, "clean", 2, pre, T("bad", 0, nil, "-"), nx(2), cpl), 0, 2)
@@ -586,6 +658,9 @@ func summary(s *Scenario) map[string]any {
 	}
 	m := map[string]any{"id": s.ID, "class": s.Class, "kind": s.Kind, "interval_ns": s.IntervalNs, "n": s.N, "sizes": s.Sizes,
 		"delays_ns": s.DelaysNs, "cut_at": s.CutAt, "tokens": strings.Join(ks, " "), "eof": s.EOF}
+	if s.CancelMode != "" {
+		m["cancel_mode"], m["cancel_at"], m["cancel_ns"], m["cancel_seen"], m["server"], m["produced"] = s.CancelMode, s.CancelAt, s.CancelNs, s.CancelSeen, s.Server, s.Produced
+	}
 	if s.Hist != "" {
 		m["history"], m["pos"], m["fail_at"], m["fail_mode"], m["server"] = s.Hist, s.Pos, s.FailAt, s.FailMode, s.Server
 	}
@@ -634,6 +709,9 @@ func judge(c *vlib.Check, scs []*Scenario, kids []*child, hists []*history, st *
 		}
 		if s.Gen != nil {
 			cls += "|" + s.Gen.Variant + "|" + s.Gen.Lens
+		}
+		if s.CancelMode != "" {
+			cls += fmt.Sprintf("|ctx-%s@%d(seen %d)|%s", s.CancelMode, s.CancelAt, s.CancelSeen, s.Server)
 		}
 		c.Class(cls)
 		for _, d := range s.Direct {
@@ -709,7 +787,40 @@ func judge(c *vlib.Check, scs []*Scenario, kids []*child, hists []*history, st *
 	var rej []*Scenario
 	okByClass := map[string]int{}
 	pings, batches, cuts := 0, 0, 0
+	// server-side cancellation: strictly accepted streams by (class, server kind, point of the cancellation), and how
+	// many payloads / `complete`s / closing boundaries arrived that were produced AFTER the context was done
+	dlAcc := map[string]int{}
+	dlStreams, dlLate, dlEnds, dlPingsAfter := 0, 0, 0, 0
 	for _, s := range live {
+		if s.CancelMode != "" {
+			dlStreams++
+		}
+		if strict[s] && s.CancelMode != "" && s.CancelSeen >= 0 {
+			total := s.N
+			if s.Kind == "mm" {
+				total = s.N + 1
+			}
+			pos := "between-payloads"
+			if s.CancelSeen == 0 {
+				pos = "before-first-payload"
+			} else if s.CancelSeen >= total {
+				pos = "after-last-payload"
+			}
+			sv := s.Server
+			if sv == "" {
+				sv = "race"
+			}
+			dlAcc[s.Class+"|"+sv+"|"+pos]++
+			if s.EOF == "clean" {
+				dlLate += total - s.CancelSeen
+				dlEnds++
+			}
+			for i, t := range s.Toks {
+				if t.K == "ping" && i >= deadlinePos(s) {
+					dlPingsAfter++
+				}
+			}
+		}
 		if strict[s] {
 			okByClass[s.Class]++
 			s.Verdict = "strict"
@@ -734,7 +845,10 @@ func judge(c *vlib.Check, scs []*Scenario, kids []*child, hists []*history, st *
 	c.AddTraces(int64(len(live) - len(rej)))
 	c.Set("strictly_accepted_by_class", okByClass)
 	c.Set("strict_rejected", len(rej))
-	c.Set("nonvacuity", map[string]int{"ping_runs_in_accepted_streams": pings, "incremental_batches_of_2_or_more": batches, "cut_streams_accepted": cuts})
+	c.Set("nonvacuity", map[string]int{"ping_runs_in_accepted_streams": pings, "incremental_batches_of_2_or_more": batches, "cut_streams_accepted": cuts,
+		"server_side_cancel_streams": dlStreams, "payloads_delivered_that_were_produced_after_server_side_cancel": dlLate,
+		"complete_or_closing_boundary_delivered_after_server_side_cancel": dlEnds, "ping_runs_after_server_side_cancel": dlPingsAfter})
+	c.Set("server_side_cancel_accepted_by_class_server_point", dlAcc)
 
 	stage := func(in []*Scenario, lock, stop, atomic bool, tag string, keys ...string) []*Scenario {
 		acc := accepted(in, lock, stop, atomic, tag, st)
@@ -759,6 +873,32 @@ func judge(c *vlib.Check, scs []*Scenario, kids []*child, hists []*history, st *
 	// behaviour of the deviating design SharedBuf (an event assembled on the residue of the failed one)?
 	rej = judgeHistories(c, hists, strict, rej, st)
 	// (locked, stopped, but `complete` and `closed` in two critical sections) - a ping parked on mu lands after `complete`
+	// (round 4) a stream whose request context was cancelled server-side: is it a behaviour of the design in which
+	// keepAlive's ctx.Done branch closes the connection (events after the cancellation dropped, no `complete`)?
+	{
+		var dl, other []*Scenario
+		for _, s := range rej {
+			if s.CancelMode != "" && s.CancelSeen >= 0 && s.Kind == "sse" {
+				dl = append(dl, s)
+			} else {
+				other = append(other, s)
+			}
+		}
+		acc := acceptedX(dl, true, true, true, "kaclose", st, kaCloseOnDone)
+		n := 0
+		for _, s := range dl {
+			if acc[s] {
+				n++
+				s.Verdict = "keepalive-closes-on-ctx-done"
+				c.Violate(keyDropAfterCancel, fmt.Sprintf("the request context was cancelled SERVER-SIDE (%s middleware around handler.Server, inside the source's call %d) while the client stayed connected and read to EOF; the operation produced %d payload(s) in all, but what it produced after the cancellation is not on the wire and/or `event: complete` is missing. The token sequence is a behaviour of the DEVIATING design KACloseOnDone = TRUE of Stream.tla only (keepAlive's ctx.Done branch marks the connection closed: c.write drops every later event), not of the property\n", s.CancelMode, s.CancelSeen+1, len(s.Produced))+describe(s), ro(s))
+			} else {
+				other = append(other, s)
+			}
+		}
+		c.AddTraces(int64(n))
+		c.Set("explained_only_by_keepalive-closes-on-ctx-done", n)
+		rej = other
+	}
 	rest := stage(rej, true, true, false, "late-ping-before-close", keyLatePing)
 	rest = stage(rest, true, false, true, "late-ping", keyLatePing)
 	rest = stage(rest, false, true, true, "splice", keySplice)
@@ -832,6 +972,21 @@ func judge(c *vlib.Check, scs []*Scenario, kids []*child, hists []*history, st *
 		}
 		if batches == 0 || cuts == 0 {
 			vlib.Infra("vacuous run: batches=%d cut streams=%d", batches, cuts)
+		}
+		// the new dimension: every point of the cancellation, on both server kinds, SSE with pings and multipart
+		if os.Getenv("C12_STRESS") == "" {
+			for _, cl := range []string{"sse-deadline", "sse-deadline-noka", "mm-deadline"} {
+				for _, sv := range []string{"race", "plain-1p"} {
+					for _, pos := range []string{"before-first-payload", "between-payloads", "after-last-payload"} {
+						if dlAcc[cl+"|"+sv+"|"+pos] == 0 {
+							vlib.Infra("vacuous run: no %s stream on the %s server with the request context cancelled server-side %s was accepted (%v)", cl, sv, pos, dlAcc)
+						}
+					}
+				}
+			}
+			if dlLate == 0 || dlEnds == 0 {
+				vlib.Infra("vacuous run: payloads produced after a server-side cancellation and delivered: %d, streams completed after one: %d", dlLate, dlEnds)
+			}
 		}
 	}
 }
@@ -1194,3 +1349,6 @@ func withHistory(s *Scenario, hists []*history) *Scenario {
 	}
 	return &cp
 }
+
+// also applies f to s (self-test helper).
+func (s *Scenario) also(f func(*Scenario)) *Scenario { f(s); return s }
